@@ -308,7 +308,8 @@ func (c *VC) execBlock(st *State, stmts []ast.Stmt) {
 }
 
 func (c *VC) exec(st *State, s ast.Stmt) {
-	c.siteAsserts(st, s)
+	c.siteAsserts(st, s, false)
+	defer c.siteAsserts(st, s, true)
 	switch s := s.(type) {
 	case *ast.BlockStmt:
 		c.execBlock(st, s.List)
@@ -1683,7 +1684,7 @@ func (c *VC) siteOrdinal(s ast.Stmt, cs CallSiteDir) int {
 	return found
 }
 
-func (c *VC) siteAsserts(st *State, s ast.Stmt) {
+func (c *VC) siteAsserts(st *State, s ast.Stmt, after bool) {
 	if c.ghost > 0 || len(c.frames) != 1 {
 		return
 	}
@@ -1712,7 +1713,21 @@ func (c *VC) siteAsserts(st *State, s ast.Stmt) {
 		} else if cs.Callee != text {
 			continue
 		}
+		if cs.After != after {
+			continue
+		}
 		if cs.Ord > 0 && c.siteOrdinal(s, cs) != cs.Ord {
+			continue
+		}
+		if cs.Lemma {
+			c.siteHitsAdd(cs)
+			if !st.dead() {
+				at := s.Pos()
+				if after {
+					at = s.End()
+				}
+				c.instantiateLemma(st, cs.Expr, at, fmt.Sprintf("site %q", cs.Callee))
+			}
 			continue
 		}
 		if c.siteHits == nil {
@@ -1735,5 +1750,43 @@ func (c *VC) siteAsserts(st *State, s ast.Stmt) {
 		// assert-then-assume: the statement is proved (or reported) on its own, later obligations
 		// may rely on it
 		c.addFact(st.pc, t)
+	}
+}
+
+func (c *VC) siteHitsAdd(cs CallSiteDir) {
+	if c.siteHits == nil {
+		c.siteHits = map[string]int{}
+	}
+	c.siteHits[fmt.Sprintf("%d %s: %s", cs.Ord, cs.Callee, cs.Expr)]++
+}
+
+// instantiateLemma: `[cond ==>] lemma_X(args)` evaluated in state st: the lemma's requires become
+// obligations (under cond), its ensures facts.
+func (c *VC) instantiateLemma(st *State, lm string, pos token.Pos, where string) {
+	fr := c.cur()
+	hs := st
+	if i := strings.Index(lm, "==>"); i >= 0 {
+		g, err := c.evalDirective(st, strings.TrimSpace(lm[:i]), pos)
+		if err != nil {
+			c.prog.errors = append(c.prog.errors, fmt.Sprintf("CONTRACT-STALE %s %s lemma %q: %v", fr.fi.Name, where, lm, err))
+			return
+		}
+		hs = st.clone()
+		hs.pc = mkAnd(st.pc, g)
+		lm = strings.TrimSpace(lm[i+3:])
+	}
+	e, err := c.prog.checkExprAt(fr.fi.Pkg, pos, lm)
+	if err != nil {
+		c.prog.errors = append(c.prog.errors, fmt.Sprintf("CONTRACT-STALE %s %s lemma %q: %v", fr.fi.Name, where, lm, err))
+		return
+	}
+	if call, ok := e.(*ast.CallExpr); ok {
+		c.ghost++
+		c.mathInts++
+		c.allowLemma = true
+		c.evalCall(hs, call)
+		c.allowLemma = false
+		c.mathInts--
+		c.ghost--
 	}
 }
